@@ -126,6 +126,60 @@ class DialectOb(StmtOb):
         return {"real_ok": True, "lifted_matches": lm, "detail": {"dialects": ds}}
 
 
+class LegacyOb(StmtOb):
+    """the legacy non-validating (sqlparse) analyzer reports the same TABLE lineage as the sqlfluff analyzer under ansi"""
+
+    fields = ("sources", "targets", "intermediates")
+
+    def __init__(self, key, st, budget=4, seed=0):
+        super().__init__(key, st, "ansi")
+        cand = [x for x in self.slots if x not in reentrant_slots(st)]
+        self.free = choose_free(cand, self.free_kinds, budget, ("t", "a"), "c09l/%s/%s" % (seed, key))
+        self.key = "legacy/%s" % key
+
+    def names(self, prefix="n"):
+        return make_names(self.slots, self.free_kinds, 2, prefix=prefix, free_slots=self.free)
+
+    def prepare(self):
+        from lx.legacy import LegacyScript
+
+        self.script = LiftedScript([self.sql], "ansi")
+        self.legacy = LegacyScript([self.sql])
+
+    def region(self, names, base, other):
+        from lx.lifted import set_eq
+
+        key = self.tkey
+        same = lambda k: set_eq(getattr(base, k), getattr(other, k))
+        subset = lambda k: all(any(bool(x == y) for y in getattr(base, k)) for x in getattr(other, k))
+        if "mixed_comma" in key and same("targets") and subset("sources"):
+            return "C09-legacy-mixed-comma-join-loses-table"
+        if "scalar_in_having" in key and same("targets") and subset("sources"):
+            return "C09-legacy-having-subquery-tables-lost"
+        if "paren_right_derived" in key and same("targets") and subset("sources"):
+            return "C09-legacy-derived-table-in-parenthesized-join-lost"
+        return None
+
+    def body(self):
+        names = self.names()
+        validity_assumptions(self.st, self.val(names))
+        base = dump_runner(self.script.runner(names))
+        other = dump_runner(self.legacy.runner(names))
+        ok = self.compare(other, base)
+        return self.verdict(names, other, base, ok=ok, finding=None if ok else self.region(names, base, other))
+
+    def replay(self, conc, verdict_ok):
+        from lx import replay as R
+
+        r0 = R.run_real(conc["sql"], "ansi")
+        r1 = R.run_real(conc["sql"], "non-validating")
+        if not (r0.get("ok") and r1.get("ok")):
+            return {"real_ok": False, "lifted_matches": False, "detail": {"ansi": r0.get("error"), "legacy": r1.get("error"), "m": (r1.get("message") or r0.get("message") or "")[:200]}}
+        lm = R.same_dump(r1, conc["lifted"], self.fields) and R.same_dump(r0, conc["expected"], self.fields)
+        pick = lambda x: {k: x[k] for k in self.fields}
+        return {"real_ok": R.same_dump(r0, r1, self.fields), "lifted_matches": lm, "detail": {"ansi": pick(r0), "legacy": pick(r1)}}
+
+
 def obligations(tier, seed):
     rnd = random.Random("c09/%s" % seed)
     tpl = [(k, st) for k, st in corpus.build(tier, seed) if st.kind not in ("show", "use")]
@@ -140,7 +194,14 @@ def obligations(tier, seed):
             # one dialect of each grammar family, so that a family-wide tree shape is met by every statement
             ds = [rnd.choice(FAMILIES[0]), rnd.choice(FAMILIES[1]), rnd.choice(FAMILIES[2]), rnd.choice(FAMILIES[3])]
             obs.append(DialectOb(k, st, ds, 4, seed))
+        lsub = [x for x in tpl if "/plain" in x[0] and x[0].startswith(("insert/", "bare/"))] + rnd.sample(tpl, len(tpl) // 5)
+        seen = set()
+        for k, st in lsub:
+            if k not in seen and st.kind not in ("drop_view",):
+                seen.add(k)
+                obs.append(LegacyOb(k, st, 4, seed))
     else:
+        obs += [LegacyOb(k, st, 5, seed) for k, st in tpl]
         for k, st in tpl:
             obs.append(DialectOb(k, st, rnd.sample(ALL_DIALECTS, 8), 4, seed))
             if "/plain" in k and k.startswith(("insert/", "ctas/")):
